@@ -272,7 +272,25 @@ impl<'a> Gen<'a> {
 
     fn mutate(&mut self, cs: &mut Vec<char>) {
         let n = cs.len();
-        match self.r.below(9) {
+        match self.r.below(11) {
+            9 if n > 0 => {
+                // repeat one character k times (k around the capacities under test)
+                let i = self.r.usize(n);
+                let k = *self.r.pick(&[1usize, 2, 3, 5, 7, 8, 9, 15, 16, 17, 20, 31, 32, 63, 64, 65, 127, 128, 129]);
+                let c = cs[i];
+                for _ in 0..k {
+                    cs.insert(i, c);
+                }
+            }
+            10 if n > 0 => {
+                // expand a blank (or any position) into a mixed tab/space run
+                let blanks: Vec<usize> = cs.iter().enumerate().filter(|(_, c)| **c == ' ' || **c == '\t').map(|(i, _)| i).collect();
+                let i = if blanks.is_empty() { self.r.usize(n) } else { *self.r.pick(&blanks) };
+                let run = self.sep_run();
+                for (k, c) in run.chars().enumerate() {
+                    cs.insert(i + k, c);
+                }
+            }
             0 if n > 0 => {
                 let i = self.r.usize(n);
                 cs.remove(i);
@@ -338,6 +356,10 @@ impl<'a> Gen<'a> {
                     // every document indicator followed by every class of terminator
                     "\n---\t", "\n...\t", "\n---\0", "\n...\0", "\n---\r\n", "\n...\r", "\n--- ", "\n... ", "\n---", "\n...",
                     "\n---a", "\n....", "\0", "\r", "\u{feff}",
+                    // escape mechanisms with multi-byte / truncated values
+                    "%C3%A9", "%E2%82%AC", "%F0%9F%98%80", "%21", "%", "%C3", "!%C3%A9 ", "!<%E2%82%AC> ", "\\U0001F600", "\\u00e9", "\\x", "\\u12",
+                    // directives after an explicit document end
+                    "...\n%YAML 1.2\n", "...\n%YAML 1.2\n%YAML 1.2\n---\n", "...\n%TAG !e! x\n",
                 ];
                 let t = *self.r.pick(&toks);
                 let at = self.r.usize(n + 1);
@@ -409,6 +431,41 @@ impl<'a> Gen<'a> {
 
     // ------------------------------------------------------------------ W3: tree renderer
 
+    /// A separation run: usually one space, sometimes a run of blanks whose length sits around the
+    /// buffer capacities under test, mixing tabs and spaces in the orders that matter (the kind of
+    /// blank that decides a check may be only at the start, only at the end, or interleaved).
+    fn sep(&mut self) -> String {
+        if !self.r.chance(1, 40) {
+            return " ".into();
+        }
+        let n = *self.r.pick(&[2usize, 3, 7, 8, 9, 15, 16, 17, 18, 31, 32, 33, 63, 64, 65, 127, 128, 129, 130]);
+        let mut s = String::with_capacity(n);
+        let pat = self.r.below(7);
+        for k in 0..n {
+            let tab = match pat {
+                0 => false,
+                1 => true,
+                2 => k == 0,
+                3 => k == n - 1,
+                4 => k % 2 == 0,
+                5 => k < n / 2,
+                _ => self.r.chance(1, 4),
+            };
+            s.push(if tab { '\t' } else { ' ' });
+        }
+        s
+    }
+
+    /// Like `sep`, but always a run.
+    fn sep_run(&mut self) -> String {
+        loop {
+            let s = self.sep();
+            if s.len() > 1 {
+                return s;
+            }
+        }
+    }
+
     fn word(&mut self) -> String {
         if self.r.below(1000) < u64::from(self.sw.long_scalar) {
             let len = *self.r.pick(&[6usize, 7, 8, 9, 14, 15, 16, 17, 31, 63, 64, 65, 127, 128, 129, 200]);
@@ -442,7 +499,11 @@ impl<'a> Gen<'a> {
             self.anchors_cur.push(name);
         }
         if self.r.chance(1, 10) {
-            out.push_str(*self.r.pick(&["!!str ", "!!int ", "!t ", "!e!x ", "!<tag:x.y,2000:z> ", "! ", "!!map ", "!!seq "]));
+            out.push_str(*self.r.pick(&[
+                "!!str ", "!!int ", "!t ", "!e!x ", "!<tag:x.y,2000:z> ", "! ", "!!map ", "!!seq ", "!!float ", "!!bool ", "!!null ",
+                // URI escapes in tags: one, two, three and four byte UTF-8 sequences, truncated and invalid ones
+                "!a%21b ", "!%C3%A9 ", "!e!%E2%82%AC ", "!<tag:%F0%9F%98%80> ", "!%C3 ", "!%E2%82 ", "!%zz ", "!%4 ", "!x%FF ", "!%C3%28 ",
+            ]));
         }
     }
 
@@ -526,7 +587,7 @@ impl<'a> Gen<'a> {
         let extra = 1 + self.r.usize(3);
         // target content indents around capacity-2 for the capacities under test
         let content_indent = if self.r.chance(1, 4) {
-            let t = *self.r.pick(&[5usize, 6, 7, 8, 13, 14, 15, 16, 17, 30, 62, 63]);
+            let t = *self.r.pick(&[5usize, 6, 7, 8, 13, 14, 15, 16, 17, 30, 62, 63, 64, 125, 126, 127, 128, 129, 130, 200]);
             t.max(indent + 1)
         } else {
             indent + extra
@@ -617,7 +678,13 @@ impl<'a> Gen<'a> {
                 let n = self.r.usize(4);
                 for i in 0..n {
                     if i > 0 {
-                        out.push_str(if self.r.chance(1, 6) { ",\n  " } else { ", " });
+                        if self.r.chance(1, 6) {
+                            out.push_str(",\n  ");
+                        } else {
+                            out.push(',');
+                            let sp = self.sep();
+                            out.push_str(&sp);
+                        }
                     }
                     if self.r.chance(1, 6) {
                         // single-pair mapping inside a sequence
@@ -704,7 +771,8 @@ impl<'a> Gen<'a> {
                             out.push(' ');
                         }
                     } else {
-                        out.push(' ');
+                        let sp = self.sep();
+                        out.push_str(&sp);
                     }
                     self.block_node(ind + 2, depth + 1, out, false);
                 }
@@ -742,7 +810,12 @@ impl<'a> Gen<'a> {
                         if self.r.chance(1, 12) {
                             out.push('\n');
                         } else {
-                            out.push(if self.r.chance(1, 25) { '\t' } else { ' ' });
+                            if self.r.chance(1, 25) {
+                                out.push('\t');
+                            } else {
+                                let sp = self.sep();
+                                out.push_str(&sp);
+                            }
                             self.block_node(ind, depth + 1, out, true);
                         }
                     }
@@ -803,7 +876,10 @@ impl<'a> Gen<'a> {
             self.nodes_left = 1 + self.r.usize(self.sw.max_nodes);
             let mut explicit = d > 0 || self.r.chance(1, 3);
             if self.r.chance(1, 10) {
-                doc.push_str(*self.r.pick(&["%YAML 1.2\n", "%TAG !e! tag:e.com,2000:\n", "%TAG ! tag:x/\n", "%FOO bar\n", "# comment\n"]));
+                doc.push_str(*self.r.pick(&[
+                    "%YAML 1.2\n", "%TAG !e! tag:e.com,2000:\n", "%TAG ! tag:x/\n", "%FOO bar\n", "# comment\n",
+                    "%TAG !e! tag:%C3%A9/\n", "%TAG !! tag:%F0%9F%98%80:\n", "%YAML 1.2\n%YAML 1.2\n", "%TAG !e! a\n%TAG !e! b\n", "%YAML 1.1 # c\n", "%TAG !e! tag:%E2\n",
+                ]));
                 explicit = true;
             }
             if explicit {
